@@ -59,12 +59,12 @@ struct always_true
 };
 
 // ---- per algorithm glue ------------------------------------------------------------------------
-template <typename T>
+template <typename T, typename E = sym::stub_engine>
 struct plain_alg
 {
-    using chk = hep::plain_chkpt_with_rng<sym::stub_engine, T>;
+    using chk = hep::plain_chkpt_with_rng<E, T>;
     static void params(world<T>&) {}
-    static chk fresh(world<T>&) { return hep::make_plain_chkpt<T>(sym::stub_engine()); }
+    static chk fresh(world<T>&) { return hep::make_plain_chkpt<T>(E()); }
     template <typename CB>
     static chk run(world<T>& w, std::vector<std::size_t> const& calls, chk const& c, CB cb)
     {
@@ -72,14 +72,14 @@ struct plain_alg
             return hep::plain(hep::make_integrand<T>(w.f, w.d, hep::make_dist_params<T>(2, T(0.0), T(1.0), w.name())), calls, c, cb);
         return hep::plain(hep::make_integrand<T>(w.f, w.d), calls, c, cb);
     }
-    static chk load(std::istream& in) { return hep::make_plain_chkpt<T, sym::stub_engine>(in); }
+    static chk load(std::istream& in) { return hep::make_plain_chkpt<T, E>(in); }
     static std::size_t numbers_per_call(world<T>& w) { return w.d; }
 };
 
-template <typename T>
+template <typename T, typename E = sym::stub_engine>
 struct vegas_alg
 {
-    using chk = hep::vegas_chkpt_with_rng<sym::stub_engine, T>;
+    using chk = hep::vegas_chkpt_with_rng<E, T>;
     static void params(world<T>& w)
     {
         w.alpha = w.h.input("alpha", 0.0, 3.0);
@@ -109,10 +109,10 @@ struct vegas_alg
     }
     static chk fresh(world<T>& w)
     {
-        if (w.user) return hep::make_vegas_chkpt<T>(user_pdf(w), w.alpha, sym::stub_engine());
+        if (w.user) return hep::make_vegas_chkpt<T>(user_pdf(w), w.alpha, E());
         // a default checkpoint learns its dimension when the driver starts (chkpt.dimensions(d)); before
         // that it has no grid and cannot be written
-        chk c = hep::make_vegas_chkpt<T>(w.B, w.alpha, sym::stub_engine());
+        chk c = hep::make_vegas_chkpt<T>(w.B, w.alpha, E());
         c.dimensions(w.d);
         return c;
     }
@@ -123,14 +123,14 @@ struct vegas_alg
             return hep::vegas(hep::make_integrand<T>(w.f, w.d, hep::make_dist_params<T>(2, T(0.0), T(1.0), w.name())), calls, c, cb);
         return hep::vegas(hep::make_integrand<T>(w.f, w.d), calls, c, cb);
     }
-    static chk load(std::istream& in) { return hep::make_vegas_chkpt<T, sym::stub_engine>(in); }
+    static chk load(std::istream& in) { return hep::make_vegas_chkpt<T, E>(in); }
     static std::size_t numbers_per_call(world<T>& w) { return w.d; }
 };
 
-template <typename T>
+template <typename T, typename E = sym::stub_engine>
 struct multi_alg
 {
-    using chk = hep::multi_channel_chkpt_with_rng<sym::stub_engine, T>;
+    using chk = hep::multi_channel_chkpt_with_rng<E, T>;
     static void params(world<T>& w)
     {
         w.beta = w.h.input("beta", 0.0, 1.0, true, false);
@@ -152,8 +152,8 @@ struct multi_alg
     }
     static chk fresh(world<T>& w)
     {
-        if (w.user) return hep::make_multi_channel_chkpt<T>(w.weights, w.minw, w.beta, sym::stub_engine());
-        return hep::make_multi_channel_chkpt<T>(w.minw, w.beta, sym::stub_engine());
+        if (w.user) return hep::make_multi_channel_chkpt<T>(w.weights, w.minw, w.beta, E());
+        return hep::make_multi_channel_chkpt<T>(w.minw, w.beta, E());
     }
     template <typename CB>
     static chk run(world<T>& w, std::vector<std::size_t> const& calls, chk const& c, CB cb)
@@ -163,7 +163,7 @@ struct multi_alg
                 hep::make_dist_params<T>(2, T(0.0), T(1.0), w.name())), calls, c, cb);
         return hep::multi_channel(hep::make_multi_channel_integrand<T>(w.f, w.d, w.m, w.d, w.C), calls, c, cb);
     }
-    static chk load(std::istream& in) { return hep::make_multi_channel_chkpt<T, sym::stub_engine>(in); }
+    static chk load(std::istream& in) { return hep::make_multi_channel_chkpt<T, E>(in); }
     static std::size_t numbers_per_call(world<T>& w) { return w.d + 1; }
 };
 
@@ -341,16 +341,16 @@ static sym::cond<T> same_vec(H<T>& h, std::vector<T> const& a, std::vector<T> co
     return c;
 }
 
-template <typename T>
-static sym::cond<T> same_chk(H<T>& h, typename plain_alg<T>::chk const& a, typename plain_alg<T>::chk const& b)
+template <typename T, typename E>
+static sym::cond<T> same_chk(H<T>& h, hep::chkpt_with_rng<E, hep::plain_chkpt<T>> const& a, hep::chkpt_with_rng<E, hep::plain_chkpt<T>> const& b)
 {
     auto c = h.truth(a.results().size() == b.results().size() && a.generator() == b.generator());
     for (std::size_t i = 0; i != a.results().size() && i != b.results().size(); ++i)
         c = c && same_plain<T>(h, a.results()[i], b.results()[i]);
     return c;
 }
-template <typename T>
-static sym::cond<T> same_chk(H<T>& h, typename vegas_alg<T>::chk const& a, typename vegas_alg<T>::chk const& b)
+template <typename T, typename E>
+static sym::cond<T> same_chk(H<T>& h, hep::chkpt_with_rng<E, hep::vegas_chkpt<T>> const& a, hep::chkpt_with_rng<E, hep::vegas_chkpt<T>> const& b)
 {
     auto c = h.truth(a.results().size() == b.results().size() && a.generator() == b.generator()) && h.same(a.alpha(), b.alpha());
     for (std::size_t i = 0; i != a.results().size() && i != b.results().size(); ++i)
@@ -359,8 +359,8 @@ static sym::cond<T> same_chk(H<T>& h, typename vegas_alg<T>::chk const& a, typen
     if (a.results().size() == b.results().size()) c = c && same_pdf<T>(h, a.pdf(), b.pdf());
     return c;
 }
-template <typename T>
-static sym::cond<T> same_chk(H<T>& h, typename multi_alg<T>::chk const& a, typename multi_alg<T>::chk const& b)
+template <typename T, typename E>
+static sym::cond<T> same_chk(H<T>& h, hep::chkpt_with_rng<E, hep::multi_channel_chkpt<T>> const& a, hep::chkpt_with_rng<E, hep::multi_channel_chkpt<T>> const& b)
 {
     auto c = h.truth(a.results().size() == b.results().size() && a.generator() == b.generator())
         && h.same(a.beta(), b.beta()) && h.same(a.min_weight(), b.min_weight());
@@ -375,10 +375,10 @@ static sym::cond<T> same_chk(H<T>& h, typename multi_alg<T>::chk const& a, typen
 
 // ---- ob 7: state threading (C19) --------------------------------------------------------------------
 template <typename T>
-static void state_checks(H<T>& h, world<T>& w, typename plain_alg<T>::chk const&, std::string const&) { (void) h; (void) w; }
+static void state_checks_impl(H<T>& h, world<T>& w, hep::plain_chkpt<T> const&, std::string const&) { (void) h; (void) w; }
 
 template <typename T>
-static void state_checks(H<T>& h, world<T>& w, typename vegas_alg<T>::chk const& c, std::string const& tag)
+static void state_checks_impl(H<T>& h, world<T>& w, hep::vegas_chkpt<T> const& c, std::string const& tag)
 {
     for (std::size_t k = 0; k != c.results().size(); ++k)
     {
@@ -393,7 +393,7 @@ static void state_checks(H<T>& h, world<T>& w, typename vegas_alg<T>::chk const&
 }
 
 template <typename T>
-static void state_checks(H<T>& h, world<T>& w, typename multi_alg<T>::chk const& c, std::string const& tag)
+static void state_checks_impl(H<T>& h, world<T>& w, hep::multi_channel_chkpt<T> const& c, std::string const& tag)
 {
     for (std::size_t k = 0; k != c.results().size(); ++k)
     {
@@ -420,5 +420,11 @@ static void state_checks(H<T>& h, world<T>& w, typename multi_alg<T>::chk const&
     h.check("C19|state.beta_and_minimum_weight_kept" + tag, h.same(c.beta(), w.beta) && h.same(c.min_weight(), w.minw));
 }
 
+
+template <typename T, typename C>
+static void state_checks(H<T>& h, world<T>& w, C const& c, std::string const& tag)
+{
+    state_checks_impl<T>(h, w, c, tag);   // slices to the checkpoint class without the generators
+}
 
 #endif
